@@ -98,6 +98,88 @@ pub fn process(
 ) -> Result<Vec<u8>, Error> {
     let mut finalized_opcode = vec![];
 
+    // every mnemonic takes a fixed number of operands (lpm/elpm: none or two)
+    let allowed_args: &[usize] = match op {
+        Operation::Add
+        | Operation::Adc
+        | Operation::Sub
+        | Operation::Sbc
+        | Operation::And
+        | Operation::Or
+        | Operation::Eor
+        | Operation::Cpse
+        | Operation::Cp
+        | Operation::Cpc
+        | Operation::Mov
+        | Operation::Mul
+        | Operation::Adiw
+        | Operation::Sbiw
+        | Operation::Subi
+        | Operation::Sbci
+        | Operation::Andi
+        | Operation::Ori
+        | Operation::Sbr
+        | Operation::Cbr
+        | Operation::Cpi
+        | Operation::Ldi
+        | Operation::Muls
+        | Operation::Mulsu
+        | Operation::Fmul
+        | Operation::Fmuls
+        | Operation::Fmulsu
+        | Operation::Movw
+        | Operation::Lds
+        | Operation::Sts
+        | Operation::Ld
+        | Operation::St
+        | Operation::Ldd
+        | Operation::Std
+        | Operation::In
+        | Operation::Out
+        | Operation::Sbrc
+        | Operation::Sbrs
+        | Operation::Bst
+        | Operation::Bld
+        | Operation::Sbi
+        | Operation::Cbi
+        | Operation::Sbis
+        | Operation::Sbic
+        | Operation::Br(BranchT::Bs)
+        | Operation::Br(BranchT::Bc) => &[2],
+        Operation::Com
+        | Operation::Neg
+        | Operation::Inc
+        | Operation::Dec
+        | Operation::Push
+        | Operation::Pop
+        | Operation::Lsr
+        | Operation::Ror
+        | Operation::Asr
+        | Operation::Swap
+        | Operation::Tst
+        | Operation::Clr
+        | Operation::Lsl
+        | Operation::Rol
+        | Operation::Ser
+        | Operation::Rjmp
+        | Operation::Rcall
+        | Operation::Jmp
+        | Operation::Call
+        | Operation::Bset
+        | Operation::Bclr
+        | Operation::Br(_) => &[1],
+        Operation::Lpm | Operation::Elpm => &[0, 2],
+        _ => &[0],
+    };
+    if !allowed_args.contains(&op_args.len()) {
+        bail!(
+            "{:?} takes {:?} operand(s), {} given",
+            op,
+            allowed_args,
+            op_args.len()
+        );
+    }
+
     let mut opcode = op.info(constants).op_code;
     let mut opcode_2part = 0u16;
     let mut long_opcode = false;
